@@ -584,7 +584,8 @@ def c17_facts(repo, sk, facts, notes):
     lam = bool(be) and re.match(r'DECL std::vector<std::string> const removed_loggers = _logger_manager\.cleanup_invalidated_loggers\( ?\[this\]\(\) ?\{ ?return _check_frontend_queues_and_cached_transit_events_empty\(\); ?\}\);$', be[0]) is not None
     facts['c17_recheck_per_logger'] = bool(ok and lam)
     # ---- order in the backend: erase (inside LoggerManager) -> cleanup_unused_sinks -> flag store; the flag is stored nowhere else
-    i_call = 0 if lam else None
+    # (two facts: the flag store comes after the erase and is the only one; the pruning comes after the erase and before the flag store)
+    i_call = idx(be, r'DECL std::vector<std::string> const removed_loggers = _logger_manager\.cleanup_invalidated_loggers\(')
     i_if = idx(be, r'IF !removed_loggers\.empty\(\)$')
     i_prune = idx(be, r'EXPR _sink_manager\.cleanup_unused_sinks\(\)$')
     i_store = idx(be, r'EXPR search_it->second->store\(true\)$')
@@ -594,10 +595,10 @@ def c17_facts(repo, sk, facts, notes):
     pe = st('be_populate_transit_event_from_frontend_queue')
     emplace_on_read = any(re.match(r'EXPR _logger_removal_flags\.emplace\(std::string\{logger_name\}, reinterpret_cast<std::atomic<bool>\*>\(logger_removal_flag_tmp\)\)$', l) for l in pe)
     no_store_on_read = not any(('logger_removal' in l and 'store' in l) for l in pe)
-    facts['c17_prune_after_erase'] = bool(None not in (i_call, i_if, i_prune) and i_call < i_if < i_prune)
-    facts['c17_flag_after_erase_and_prune'] = bool(None not in (i_call, i_if, i_prune, i_store) and i_call < i_if < i_prune < i_store
-                                                 and sorted(uses) == ['emplace', 'end', 'erase', 'find'] and emplace_on_read and no_store_on_read
-                                                 and len(re.findall(r'second\s*->\s*store\s*\(', src_nc)) == 1)
+    facts['c17_prune_after_erase'] = bool(None not in (i_call, i_if, i_prune) and i_call < i_if < i_prune and (i_store is None or i_prune < i_store))
+    facts['c17_flag_after_erase'] = bool(None not in (i_call, i_if, i_store) and i_call < i_if < i_store
+                                         and sorted(uses) == ['emplace', 'end', 'erase', 'find'] and emplace_on_read and no_store_on_read
+                                         and len(re.findall(r'second\s*->\s*store\s*\(', src_nc)) == 1)
     # ---- frontend: request enqueued, then invalidation, then the wait on the flag
     rb = st('c17_fe_remove_logger_blocking')
     i_req = idx(rb, r'WHILE !logger->template log_statement<false, false>\( ?LogLevel::None, &macro_metadata, reinterpret_cast<uintptr_t>\(logger_removal_complete_ptr\), logger->get_logger_name\(\)\)$')
